@@ -40,6 +40,15 @@ def _c01b(tree, ob):
 
 def _c09c(tree, ob):
     from .c09 import c09c   # c09 imports this module: resolve late
+    # For C04 the flush matters only as far as a leftover bundle could still be STARTED after SESS_TERM.  When the queue pump
+    # refuses to dequeue while terminating (C04.c) nothing can start, whatever the flush leaves behind; the flush itself is
+    # then C09's concern (reporting, closing), not C04's.
+    from ..report import Obligation
+    probe = Obligation('C04.c', 'R-NOPATH', '')
+    c04c(tree, probe)
+    if not probe.findings and not probe.error:
+        ob.site(SESS, tree.func(SESS, 'ContactHandler._process_queue'), 'nothing can start while terminating (C04.c): what the SESS_TERM flush leaves queued cannot break the message sequence')
+        return
     return c09c(tree, ob)
 
 
@@ -188,6 +197,15 @@ def c04d(tree, ob):
         ob.violate(SESS, fv.qual, src(app)[:90], 'the Transfer-Length extension can be attached to a segment without START', app)
     else:
         ob.site(SESS, app, 'length extension on exactly the paths that set START')
+    # every other extension item (the private test item) goes with START as well: send_xfer_data refuses items elsewhere,
+    # and a refusal out of the pump stalls the transfer behind its first segment
+    for c in calls_in(fv.func):
+        if pm('ext_items.append($x)', c) is not None and c is not app:
+            if fv.has(c, 'self._tx_length == 0', True):
+                ob.site(SESS, c, 'extension item appended for the START segment only')
+            else:
+                ob.violate(SESS, fv.qual, src(c)[:90], 'an extension item is attached to every segment, but items are refused outside START: a transfer of more than one segment '
+                           'stops after its first segment and blocks the queue', c)
     got = pm('$a.TransferTotalLength(total_length=self._tx_tmp.total_length)', app.args[0].right if isinstance(app.args[0], ast.BinOp) else app.args[0])
     if got is None:
         ob.violate(SESS, fv.qual, src(app)[:120], 'Transfer-Length extension does not carry the total length of the active transfer', app)
